@@ -47,7 +47,7 @@ import (
 
 func TestMain(m *testing.M) {
 	stats.Init("C15")
-	stats.Rule("transport (tcp, ipc, tls+tcp, ws, wss) x role (mangos dials / listens) enumerated as subtests; per case a constructor drawn from all 24 (12 protocol numbers, raw and cooked), then (handshake) 1-6 deviating peer headers: byte position 0-7 x drawn wrong value (bit flips, 0x00/0x01/0xff, uniform), another of the 12 protocol numbers, byte-swapped number, 0-7 byte prefix + half close; (messages) 1-5 transfers in the directions the pattern allows with protocol-header length 0-32 (raw) and a payload length drawn around 0/64/125/126/127/128/.../65535/65536 (+-1), small, or uniform up to 70000, content = PRF(key); (ws) subprotocol offers: right, peer's name, none, other protocol, case/suffix/prefix variants, lists. Non-trivial: every deviation / wrong-offer case, and every message case with a non-empty protocol header or a payload length adjacent to a ws length-encoding or pool-class boundary; distinct by (transport, role, constructor, deviation or (direction, header length, boundary length))")
+	stats.Rule("transport (tcp, ipc, tls+tcp, ws, wss) x role (mangos dials / listens) enumerated as subtests; per case a constructor drawn from all 24 (12 protocol numbers, raw and cooked), then (handshake) 1-6 deviating peer headers: byte position 0-7 x drawn wrong value (bit flips, 0x00/0x01/0xff, uniform), another of the 12 protocol numbers, byte-swapped number, 0-7 byte prefix + half close; (messages) 1-5 transfers in the directions the pattern allows with protocol-header length 0-32 (raw) and a payload length drawn around 0/64/125/126/127/128/.../65535/65536 (+-1), small, or uniform up to 70000, content = PRF(key); (ws) subprotocol offers: right, peer's name, none, other protocol, case/suffix/prefix variants, lists. Also: frames written in drawn pieces; ws/wss listeners optionally with WEBSOCKET-CHECKORIGIN set before/after Listen. Non-trivial: every deviation / wrong-offer case, and every message case with a non-empty protocol header or a payload length adjacent to a ws length-encoding or pool-class boundary; distinct by (transport, role, constructor, deviation or (direction, header length, boundary length))")
 	stats.Assume("the harness plays mangos' expected peer protocol; a peer that sends a short header and then stays silent without closing is C10/C16 territory and not generated here")
 	stats.Assume("IPC: the property fixes what mangos writes (0x01); acceptance of other prefix bytes from a peer is not part of the handshake-deviation quantifier and is not generated")
 	rc := m.Run()
